@@ -169,7 +169,7 @@ def styleAttrs (c : RenderCtx) (j : Nat) : List (String × String) :=
   [("style", ",".intercalate (styleList c j)),
    ("label", c.rid j ++ ": " ++ c.label j),
    ("shape", "box")] ++
-  (if c.t.critical j then [("color", "red"), ("penwidth", "2")] else [("penwidth", "0.5")])
+  (if c.t.critical j then [("color", "red"), ("penwidth", "2")] else [("color", "black"), ("penwidth", "0.5")])
 
 /-- `repr(DotStyle)` -/
 def renderAttrs (as : List (String × String)) : String :=
